@@ -1,13 +1,13 @@
 SPECIFICATION Spec
 CONSTANTS
-  MaxReq = 3
+  MaxReq = 6
   UDPEnabled = TRUE
   HasRecord = TRUE
-  HasPlay = FALSE
+  HasPlay = TRUE
   HasPause = TRUE
-  Tracks = {0, 1}
-  MethodSet <- Methods
-  ShSet <- AllSh
+  Tracks = {0}
+  MethodSet <- MainMethods
+  ShSet <- NoUnknown
 INVARIANT BImpliesA
 INVARIANT Agreement
 CHECK_DEADLOCK FALSE
